@@ -2,7 +2,9 @@
 package c30
 
 import (
+	"bytes"
 	"fmt"
+	"google.golang.org/protobuf/encoding/protowire"
 	"strings"
 
 	"github.com/google/go-cmp/cmp"
@@ -63,8 +65,9 @@ type elem struct {
 }
 
 func run(c *core.Ctx) {
-	c.Rule = "U = all messages with <=k slots over the slot alphabet of each listed type (incl. near-miss pairs differing in one nested value, nil vs empty bytes, +0/-0, NaN, unknown records permuted across and within field numbers), each in generated and dynamicpb form; ALL ordered pairs of U: Equal(x,y) must equal equality of the reference key (an equivalence by construction => reflexive, symmetric, transitive), for gen/gen (fast path), dyn/dyn and gen/dyn (reflection path) and protoreflect.Value.Equal; plus Equal(m,Clone(m)), Equal(m,decode(encode(m))), and cmp.Equal(protocmp.Transform()) on all pairs of a sub-universe free of NaN/Any/unknown"
+	c.Rule = "U = all messages with <=k slots over the slot alphabet of each listed type (incl. near-miss pairs differing in one nested value, nil vs empty bytes, +0/-0, NaN, unknown records permuted across and within field numbers), each in generated and dynamicpb form; ALL ordered pairs of U: Equal(x,y) must equal equality of the reference key (an equivalence by construction => reflexive, symmetric, transitive), for gen/gen (fast path), dyn/dyn and gen/dyn (reflection path) and protoreflect.Value.Equal; plus Equal(m,Clone(m)), Equal(m,decode(encode(m))), and cmp.Equal(protocmp.Transform()) on all pairs of a sub-universe free of NaN/Any/unknown. Unknown-field interleavings: ALL sequences of <=3 unknown records over {100000:varint 1, 100000:varint 3, 100001:varint 2, 100002:bytes x} (84 sequences) as the unknown fields of generated open / opaque and dynamicpb messages, ALL ordered pairs: Equal == (per field number, the concatenation of its records is identical), the operands are byte-identical afterwards and still Equal to clones taken before"
 	c.Exhaustive = true
+	unknownInterleavings(c)
 	var planOut []map[string]any
 	for _, p := range plans(c) {
 		if c.Expired() {
@@ -198,4 +201,72 @@ func run(c *core.Ctx) {
 	}
 	c.Bounds["plans"] = planOut
 	c.Assume("reference equality key: populated fields by number with values (NaN==NaN, -0==+0, nil bytes==empty bytes), unknown records grouped by field number keeping per-number order")
+}
+
+// unknownInterleavings: unknown fields compare per field number, regardless of
+// the interleaving between numbers, and Equal does not modify its operands.
+func unknownInterleavings(c *core.Ctx) {
+	recs := []struct {
+		num uint64
+		b   []byte
+	}{
+		{100000, protowire.AppendVarint(protowire.AppendTag(nil, 100000, protowire.VarintType), 1)},
+		{100000, protowire.AppendVarint(protowire.AppendTag(nil, 100000, protowire.VarintType), 3)},
+		{100001, protowire.AppendVarint(protowire.AppendTag(nil, 100001, protowire.VarintType), 2)},
+		{100002, protowire.AppendString(protowire.AppendTag(nil, 100002, protowire.BytesType), "x")},
+	}
+	type useq struct {
+		name string
+		raw  []byte
+		key  string
+	}
+	var seqs []useq
+	n := univ.TupleCount(len(recs), 3)
+	for i := 0; i < n; i++ {
+		idx := univ.TupleAt(len(recs), 3, i, nil)
+		var raw []byte
+		by := map[uint64][]byte{}
+		var nm []string
+		for _, j := range idx {
+			raw = append(raw, recs[j].b...)
+			by[recs[j].num] = append(by[recs[j].num], recs[j].b...)
+			nm = append(nm, fmt.Sprint(j))
+		}
+		key := ""
+		for _, num := range []uint64{100000, 100001, 100002} {
+			key += fmt.Sprintf("%d:%x;", num, by[num])
+		}
+		seqs = append(seqs, useq{strings.Join(nm, ","), raw, key})
+	}
+	for _, tn := range []string{"goproto.proto.test.TestAllTypes", "opaque.goproto.proto.testeditions.TestAllTypes", "goproto.proto.test3.TestAllTypes"} {
+		for _, f := range []univ.Flavor{univ.Gen(tn), univ.Dyn(tn)} {
+			f := f
+			c.Par(len(seqs), func(i int) {
+				for j := range seqs {
+					a, b := seqs[i], seqs[j]
+					c.Eval(1)
+					c.Guard(func() string {
+						return fmt.Sprintf("unknown interleaving type=%s x=[%s] y=[%s]", f.Name, a.name, b.name)
+					}, func() {
+						x, y := f.MT.New(), f.MT.New()
+						x.SetUnknown(append(protoreflect.RawFields{}, a.raw...))
+						y.SetUnknown(append(protoreflect.RawFields{}, b.raw...))
+						cx, cy := proto.Clone(x.Interface()), proto.Clone(y.Interface())
+						got := proto.Equal(x.Interface(), y.Interface())
+						if want := a.key == b.key; got != want {
+							c.Violation(fmt.Sprintf("Equal=%v for unknown fields that are %s per field number: type=%s x=[%s] y=[%s]", got, map[bool]string{true: "identical", false: "different"}[want], f.Name, a.name, b.name), map[string]any{"x": fmt.Sprintf("%x", a.raw), "y": fmt.Sprintf("%x", b.raw)})
+						}
+						if !bytes.Equal(x.GetUnknown(), a.raw) || !bytes.Equal(y.GetUnknown(), b.raw) {
+							c.Violation(fmt.Sprintf("Equal modified the unknown fields of an operand: type=%s x=[%s] y=[%s]", f.Name, a.name, b.name), map[string]any{"x_after": fmt.Sprintf("%x", x.GetUnknown()), "x_before": fmt.Sprintf("%x", a.raw)})
+						}
+						if !proto.Equal(x.Interface(), cx) || !proto.Equal(y.Interface(), cy) {
+							c.Violation(fmt.Sprintf("an operand is no longer Equal to the clone taken before the comparison: type=%s x=[%s] y=[%s]", f.Name, a.name, b.name), nil)
+						}
+					})
+				}
+			})
+		}
+	}
+	c.DistinctN(int64(len(seqs) * len(seqs)))
+	c.Bounds["unknown_sequences"] = len(seqs)
 }
